@@ -143,9 +143,7 @@ def genOps2 : List (String × R String) := [
   ("g:b58_accept", do
       -- Address.__init__(address=s): validate, then decode
       let (ty, pfx) ← tyPfx; let s ← str
-      pure (ansG hex (do
-        let v ← Gen.is_address_valid Crypto.sha256 b58dec ty pfx pfx s
-        if v then Gen.address_to_hash160 b58dec s else throw PyErr.valueError))),
+      pure (ansG hex (Gen.address_init_address Crypto.sha256 b58dec ty pfx pfx s))),
   ("g:priv_init", do
       -- PrivateKey.__init__: python-ecdsa's constructors replaced by their range checks, base58check by the Spec's
       let pfx ← netPfx; let w ← optStr; let e ← optInt; let b ← optBytes
